@@ -168,6 +168,80 @@ func runC01(e *Env) {
 		}
 	}
 	flush()
+	c01Directed(e)
+}
+
+// evalOrderGuard names the known evaluation-order deviations: both operands of `in`/`not in`
+// have side effects (calls); both slice bounds do; the index of a compound item assignment does.
+func evalOrderGuard(p *N) string {
+	hasCall := func(x *N) bool {
+		found := false
+		Walk(x, func(y *N, _ []*N) {
+			if y.K == "call" || y.K == "mcall" {
+				found = true
+			}
+		}, nil)
+		return found
+	}
+	g := ""
+	Walk(p, func(x *N, _ []*N) {
+		switch {
+		case (x.K == "in" || x.K == "notin") && hasCall(x.C[0]) && hasCall(x.C[1]):
+			g = "C01-in-evaluates-right-first"
+		case x.K == "slice" && hasCall(x.C[1]) && hasCall(x.C[2]):
+			g = "C01-slice-evaluates-stop-first"
+		case x.K == "setitem" && x.S != "=" && hasCall(x.C[1]):
+			g = "C01-compound-index-evaluated-twice"
+		}
+	}, nil)
+	return g
+}
+
+// c01Directed: operands with observable side effects (a logging function) in every operand
+// position: the printed order is the evaluation order.
+func c01Directed(e *Env) {
+	lg := n("expr", ns("func", "lg", n("params", ns("param", "v")), nBlock(n("expr", nCall(nId("print"), nId("v"))), n("return", nId("v")))))
+	call := func(k int64) *N { return nCall(nId("lg"), nInt(k)) }
+	lst := nVar("l", n("list", nInt(1), nInt(2), nInt(3), nInt(4)))
+	mk := func(stmts ...*N) *N { return n("prog", append([]*N{lg, lst}, stmts...)...) }
+	progs := []*N{
+		mk(n("expr", nInfix("+", call(1), nInfix("*", call(2), call(3))))),
+		mk(n("expr", nInfix("-", nInfix("-", call(1), call(2)), call(3)))),
+		mk(n("expr", nInfix("&&", call(0), call(2)))),
+		mk(n("expr", nInfix("||", call(1), call(2)))),
+		mk(n("expr", n("tern", nInfix("<", call(1), call(2)), call(3), call(4)))),
+		mk(n("expr", n("list", call(3), call(1), call(2)))),
+		mk(n("expr", nCall(nId("lg"), nInfix("+", call(1), call(2))))),
+		mk(n("expr", n("index", n("list", call(5), call(6)), nInfix("-", call(1), call(1))))),
+		mk(n("expr", nInfix("==", call(1), call(2)))),
+		mk(ns("setitem", "=", nId("l"), call(0), call(9)), n("expr", nId("l"))),
+		mk(nVar("a", call(1)), nAssign("a", "+=", call(2)), n("expr", nId("a"))),
+		mk(n("expr", n("if", nInfix(">", call(2), call(1)), nBlock(n("expr", call(3))), nBlock(n("expr", call(4)))))),
+		mk(n("expr", n("switch", call(2), n("case", call(1), nBlock(n("expr", call(7)))), n("case", call(2), call(3), nBlock(n("expr", call(8)))), n("default", nBlock(n("expr", call(9))))))),
+		// the three known deviations
+		mk(n("expr", n("in", call(1), n("list", call(2), call(1))))),
+		mk(n("expr", n("notin", call(1), n("list", call(2))))),
+		mk(n("expr", n("slice", nId("l"), call(1), call(3)))),
+		mk(ns("setitem", "+=", nId("l"), call(1), call(5)), n("expr", nId("l"))),
+	}
+	for _, p := range progs {
+		src := Src(p)
+		goOut := goOutcome(EvalSrc(src, 5*time.Second))
+		model := e.O.Ask("C01", "eval", Sexp(p))
+		vm := e.O.Ask("C01", "vmrun", Sexp(p), c01Globals)
+		e.R.Case(Sexp(p), true)
+		e.R.H("directed_eval_order", "cases")
+		if vm != goOut {
+			e.R.Mismatch(src, strings.ReplaceAll(goOut, "\t", " "), strings.ReplaceAll(vm, "\t", " "), "vm.Run vs C01.runCodes on a directed evaluation-order program")
+		}
+		if model != goOut {
+			finding := ""
+			if vm == goOut {
+				finding = evalOrderGuard(p)
+			}
+			e.R.Spec(src, fmt.Sprintf("real pipeline: %s | source-level meaning (left-to-right, Lean Sem): %s", strings.ReplaceAll(goOut, "\t", " "), strings.ReplaceAll(model, "\t", " ")), finding)
+		}
+	}
 }
 
 func c01Compare(e *Env, p *N, src, goOut, model string) {
